@@ -119,6 +119,11 @@ macro_rules! for_all_semirings {
         $f::<OFf<{ primes::U32_TINY }>, _>($($args),*);
         $f::<OFf<{ primes::U32_SMALL }>, _>($($args),*);
         $f::<OFf<{ primes::U64_LARGEST }>, _>($($args),*);
+        // a 96-bit exported prime, and two primes a user may choose for the generic field type
+        // (2^107 - 1 and 2^127 - 1: the multiplication's slow path beyond the exported sizes)
+        $f::<OFf<{ primes::U128_LARGE_2 }>, _>($($args),*);
+        $f::<OFf<{ crate::semi::M107 }>, _>($($args),*);
+        $f::<OFf<{ crate::semi::M127 }>, _>($($args),*);
         $f::<OBool, _>($($args),*);
         $f::<OEu, _>($($args),*);
         $f::<OCx, _>($($args),*);
